@@ -8,6 +8,7 @@ PROP = {'drive': ['Names'], 'modules': ['SfntV.Props.C14'],
                        'C14_utf16_roundtrip',
                        'C14_post_roundtrip',
                        'C14_language_tables_ok',
+                       'C14_language_tables_injective',
                        'C14_name_roundtrip',
                        'C14_name_encode_roundtrip',
                        'C14_post_checked_ok_iff',
